@@ -1102,6 +1102,75 @@ def c17_hist(stream, scen=None):
     return wit
 
 
+IDLE_SKIP_OPS = {'shutdown', 'restore', 'schedfailrel', 'schedfail', 'fail', 'wo', 'rewire', 'create', 'addres',
+                 'reserve', 'release', 'register', 'merge', 'pause', 'unpause', 'cancel'}
+
+
+def c08_idle(stream, scen=None):
+    """idle-longest rule, with an idle clock kept by the monitor itself: when a device hands a part
+    directly to one of several parallel single-slot devices (handler / processor / sink) that were
+    all free, unblocked and operational, the receiver is one that has been free for the longest
+    time (free since = the moment its last part left, or its creation).  Applied only to scenarios
+    without failures, shutdowns, work orders, rewiring and resource requirements (which change what
+    'able to take a part' means); input blocking and unblocking are allowed."""
+    for l in scen or []:
+        op = l[2] if l[0] == 'script' and len(l) > 2 else (l[1] if l[0] == 'ext' and len(l) > 1 else None)
+        if op in IDLE_SKIP_OPS or l[0] in ('wire', 'target', 'res'):
+            return []
+        if l[:2] == ['asset', 'dev'] and any(t.startswith(('res=', 'fincb=', 'reccb=')) for t in l[3:]):
+            return []
+        if l[:2] == ['asset', 'maint'] or l[:2] == ['asset', 'group']:
+            return []
+    wit = []
+    free_since = {}
+    prev = None
+    single = ('handler', 'processor', 'sink')
+    for i, f in enumerate(frames(stream)):
+        if f.trigger[0] == 'abort':
+            return wit
+        if f.now is None or f.trigger[0] in ('ran', 'runbegin'):
+            continue
+        devs = devs_of(f.state)
+        pd = devs_of(prev.state) if prev is not None else {}
+        if f.trigger[0] == 'ev' and f.trigger[1]['status'] == 'ran' and f.trigger[1]['act'] % 16 == 3 and pd:
+            g = f.trigger[1]['act'] // 16
+            if g in pd and pd[g].kind in ('source', 'handler', 'processor') and pd[g].slot('out') is not None:
+                p = pd[g].slot('out')
+                dn = [int(z) for z in plist_(pd[g].f.get('dn', '-'))]
+                if dn and all(y in pd and pd[y].kind in single for y in dn):
+                    cand = [y for y in dn if pd[y].slot('part') is None and pd[y].slot('out') is None
+                            and pd[y].f.get('blk') == '0' and pd[y].f.get('down') == '0' and y in free_since]
+                    recv = [y for y in dn if y in devs and devs[y].slot('part') == p and pd[y].slot('part') is None]
+                    if len(recv) == 1 and recv[0] in cand and len(cand) >= 2:
+                        x = recv[0]
+                        better = [y for y in cand if free_since[y] < free_since[x]]
+                        if better:
+                            wit.append(f'frame {i} (t={f.now}): device {g} handed part {p} to {x} (free since {free_since[x]}) although '
+                                       f'{better[0]} was free, unblocked and operational and has been free since {free_since[better[0]]}')
+        got = {int(r.split()[1]) for r in f.recs if r.startswith('received_part ')}
+        for y, d in devs.items():
+            if d.kind not in single:
+                continue
+            empty = d.slot('part') is None and d.slot('out') is None
+            if y in got and empty:
+                free_since[y] = f.now          # received and passed on / consumed within the same event
+            elif y not in pd:
+                if empty:
+                    free_since[y] = f.now
+            else:
+                was_empty = pd[y].slot('part') is None and pd[y].slot('out') is None
+                if empty and not was_empty:
+                    free_since[y] = f.now
+                elif empty and y not in free_since:
+                    free_since[y] = f.now
+                elif not empty:
+                    free_since.pop(y, None)
+        prev = f
+        if len(wit) > 3:
+            break
+    return wit
+
+
 MONITORS.update({'C02': [c02], 'C03': [c03], 'C05': [c05], 'C08': [c08], 'C11': [c11], 'C13': [c13],
                  'C15': [c15], 'C16': [c16], 'C17': [c17, c05, c17_hist]})
 
